@@ -38,9 +38,14 @@ ElemLemma    == \A t \in Types, op \in {"AddEqE", "SubEqE", "MulEqE", "DivEqE"},
                    Check(t, op, x, <<>>, <<>>, <<i>>)
 BinaryLemma  == \A t \in Types, op \in Binary, x, y \in Vec(N2) : Check(t, op, x, y, <<>>, <<>>)
 TernaryLemma == \A op \in Ternary, x, y, z \in Vec(N3) : Check("int", op, x, y, z, <<>>)
-WeightedLemma == /\ \A x, a \in Vec(N2), nz, pre \in 0..1 : Check("double", "MeanW", x, a, <<>>, <<nz, pre>>)
-                 /\ \A x, a \in Vec(N2), u, nz, pre \in 0..1 : Check("double", "VarW", x, a, <<>>, <<u, nz, pre>>)
-                 /\ \A x, y, a \in Vec(N3), u, nz, pre \in 0..1 : Check("double", "CovW", x, y, a, <<u, nz, pre>>)
+WeightedLemma == /\ \A x, a \in Vec(N2), nz, pre \in 0..1 : Check("double", "MeanW", x, a, <<>>, <<nz, pre, 30>>)
+                 /\ \A x, a \in Vec(N2), u, nz, pre \in 0..1 : Check("double", "VarW", x, a, <<>>, <<u, nz, pre, 0>>)
+                 /\ \A x, y, a \in Vec(N3), u, nz, pre \in 0..1 : Check("double", "CovW", x, y, a, <<u, nz, pre, 40>>)
+OffsetLemma  == /\ \A x \in Vec(N1), e \in {0, 40} : Check("double", "MeanX", x, <<>>, <<>>, <<e>>) /\ Check("double", "CenterX", x, <<>>, <<>>, <<e>>)
+                /\ \A x \in Vec(N1), u \in 0..1 : Check("double", "VarX", x, <<>>, <<>>, <<u, 30>>) /\ Check("double", "SdX", x, <<>>, <<>>, <<u, 30>>)
+                /\ \A x, y \in Vec(N2), u \in 0..1 : Check("double", "CovX", x, y, <<>>, <<u, 30>>) /\ Check("double", "CorX", x, y, <<>>, <<30>>)
+                /\ \A m \in 0..2000 : ISqrt(m) * ISqrt(m) <= m /\ m < (ISqrt(m) + 1) * (ISqrt(m) + 1)
+                /\ ISqrt(1000000000) = 31622
 NaryLemma    == \A op \in Nary, x, y, z \in Vec(N3), n \in 0..3 : Check("int", op, x, y, z, <<n>>)
 
 \* the definitions themselves
@@ -82,11 +87,18 @@ RefuseLemma ==
   /\ ~J("double", "Fdr", <<3, 1, 2>>, <<>>, <<>>, <<>>, "ok", "", <<22680, 3780, 5040>>, <<3, 1, 2>>, <<>>, <<>>)
   /\ J("double", "Fdr", <<3, 1, 2>>, <<>>, <<>>, <<>>, "ok", "", <<3 * 2520, 2520 * 3, 2520 * 3>>, <<3, 1, 2>>, <<>>, <<>>)
   \* weighted variance of x = (0, 2) with weights (1, 1)/2: biased 1, unbiased 2; a flag mix-up is refused
-  /\ J("double", "VarW", <<0, 2>>, <<1, 1>>, <<>>, <<0, 1, 0>>, "ok", "", <<4096, 0, 0, 1, 0>>, <<0, 2>>, <<1, 1>>, <<>>)
-  /\ ~J("double", "VarW", <<0, 2>>, <<1, 1>>, <<>>, <<0, 1, 0>>, "ok", "", <<8192, 0, 0, 1, 0>>, <<0, 2>>, <<1, 1>>, <<>>)
-  /\ J("double", "VarW", <<0, 2>>, <<1, 1>>, <<>>, <<1, 0, 1>>, "ok", "", <<8192, 0, 0, 1, 0>>, <<0, 2>>, <<1, 1>>, <<>>)
-  /\ ~J("double", "VarW", <<0, 2>>, <<1, 1>>, <<>>, <<1, 0, 1>>, "ok", "", <<4096, 0, 0, 0, 0>>, <<0, 2>>, <<1, 1>>, <<>>)
-  /\ ~J("double", "VarW", <<0, 2>>, <<1, 1>>, <<>>, <<0, 1, 0>>, "ok", "", <<-4096, 0, 1, 0, 1>>, <<0, 2>>, <<1, 1>>, <<>>)
+  /\ J("double", "VarW", <<0, 2>>, <<1, 1>>, <<>>, <<0, 1, 0, 0>>, "ok", "", <<4096, 0, 0, 1, 0>>, <<0, 2>>, <<1, 1>>, <<>>)
+  /\ ~J("double", "VarW", <<0, 2>>, <<1, 1>>, <<>>, <<0, 1, 0, 30>>, "ok", "", <<8192, 0, 0, 1, 0>>, <<0, 2>>, <<1, 1>>, <<>>)
+  /\ J("double", "VarW", <<0, 2>>, <<1, 1>>, <<>>, <<1, 0, 1, 0>>, "ok", "", <<8192, 0, 0, 1, 0>>, <<0, 2>>, <<1, 1>>, <<>>)
+  /\ ~J("double", "VarW", <<0, 2>>, <<1, 1>>, <<>>, <<1, 0, 1, 0>>, "ok", "", <<4096, 0, 0, 0, 0>>, <<0, 2>>, <<1, 1>>, <<>>)
+  /\ ~J("double", "VarW", <<0, 2>>, <<1, 1>>, <<>>, <<0, 1, 0, 0>>, "ok", "", <<-4096, 0, 1, 0, 1>>, <<0, 2>>, <<1, 1>>, <<>>)
+  \* (1,2,3,4) + 2^30: biased variance 5/4, unbiased 5/3 (not on the scale: only the sure facts), sd of (0,2)+2^30 is 1
+  /\ J("double", "VarX", <<1, 2, 3, 4>>, <<>>, <<>>, <<0, 30>>, "ok", "", <<5120, 0, 0>>, <<1, 2, 3, 4>>, <<>>, <<>>)
+  /\ ~J("double", "VarX", <<1, 2, 3, 4>>, <<>>, <<>>, <<0, 30>>, "ok", "", <<0, 0, 0>>, <<1, 2, 3, 4>>, <<>>, <<>>)
+  /\ ~J("double", "VarX", <<1, 2, 3, 4>>, <<>>, <<>>, <<1, 30>>, "ok", "", <<-2000000000, 0, 1>>, <<1, 2, 3, 4>>, <<>>, <<>>)
+  /\ J("double", "VarX", <<1, 2, 3, 4>>, <<>>, <<>>, <<1, 30>>, "ok", "", <<-2000000000, 0, 0>>, <<1, 2, 3, 4>>, <<>>, <<>>)
+  /\ J("double", "SdX", <<0, 2>>, <<>>, <<>>, <<0, 30>>, "ok", "", <<64, 0>>, <<0, 2>>, <<>>, <<>>)
+  /\ ~J("double", "CorX", <<1, 2>>, <<2, 4>>, <<>>, <<30>>, "ok", "", <<1, 0>>, <<1, 2>>, <<2, 4>>, <<>>)
   \* log-sum-exp of two tied finite entries that answers max (ties dropped) is refused through c3
   /\ ~JLog("LogSumExp", <<2, 2>>, <<>>, 5, "ok", "", [nan |-> FALSE, fin |-> TRUE, ri |-> 2, mi |-> 2, zero |-> FALSE, c1 |-> TRUE, c2 |-> TRUE,
                                                    wm |-> 0, w |-> 0, eo |-> FALSE, k |-> 2, c3 |-> FALSE, near |-> TRUE, c4 |-> FALSE, sha |-> TRUE, sh |-> TRUE])
@@ -100,6 +112,7 @@ ASSUME LET v == RepLemma /\ SeqLemma IN PrintT(<<"Lemma", "RepSeq", v>>) /\ v
 ASSUME LET v == BinaryLemma IN PrintT(<<"Lemma", "Binary", v>>) /\ v
 ASSUME LET v == TernaryLemma IN PrintT(<<"Lemma", "Ternary", v>>) /\ v
 ASSUME LET v == NaryLemma IN PrintT(<<"Lemma", "Nary", v>>) /\ v
+ASSUME LET v == OffsetLemma IN PrintT(<<"Lemma", "Offset", v>>) /\ v
 ASSUME LET v == WeightedLemma IN PrintT(<<"Lemma", "Weighted", v>>) /\ v
 ASSUME LET v == DefLemma /\ TruncLemma IN PrintT(<<"Lemma", "Defs", v>>) /\ v
 ASSUME LET v == RefuseLemma IN PrintT(<<"Lemma", "Refuse", v>>) /\ v
